@@ -86,16 +86,25 @@ def run_case(c, kind, builder, detector, mean, rng):
         else:
             base = abtem.FrozenPhonons(atoms, num_configs=k, sigmas=0.12, seed=seeds)
             fp = abtem.AtomsEnsemble(displaced_configurations(base), ensemble_mean=mean)
-        ep = exit_planes_arg(c["spec"])
+        ep = exit_planes_arg(c["spec"]) if builder != "prism" else None
         mk = lambda a: abtem.Potential(a, gpts=16, slice_thickness=2.0, exit_planes=ep, projection="infinite")
         pot = mk(fp)
+        det = {"waves": None, "annular": abtem.AnnularDetector(inner=10, outer=40 if builder == "prism" else 60),
+               "pixelated": abtem.PixelatedDetector(max_angle=None)}[detector]
         if builder == "plane":
             wave, kw = abtem.PlaneWave(energy=100e3), {}
+        elif builder == "prism":
+            # the PRISM route: the S-matrix of every configuration, reduced at the scan positions
+            class _Prism:
+                def multislice(self, p, detectors=None, lazy=False, max_batch="auto", scan=None):
+                    S = abtem.SMatrix(potential=p, energy=100e3, semiangle_cutoff=25.0)
+                    return S.reduce(scan=scan, lazy=lazy) if detectors is None else S.scan(scan=scan, detectors=detectors, lazy=lazy)
+            wave, kw = _Prism(), {"scan": abtem.CustomScan(np.array([[1.0, 1.5], [2.5, 0.5]]))}
         else:
             wave, kw = abtem.Probe(energy=100e3, semiangle_cutoff=25), {"scan": abtem.CustomScan(np.array([[1.0, 1.5], [2.5, 0.5]]))}
-        det = {"waves": None, "annular": abtem.AnnularDetector(inner=10, outer=60), "pixelated": abtem.PixelatedDetector(max_angle=None)}[detector]
         use_mean = mean and detector != "waves"
-        with sink:
+        import contextlib
+        with (sink if builder != "prism" else contextlib.nullcontext()):
             res = wave.multislice(pot, detectors=det, lazy=False, **kw)
         full = arr(res)
         configs = displaced_configurations(fp)
@@ -129,7 +138,7 @@ def run_case(c, kind, builder, detector, mean, rng):
 def run(ctx: Ctx):
     quick = ctx.tier == "quick"
     ctx.rule = ("(configurations 1..K, slices, exit planes) enumerated by TLC from MultisliceImpl, realised with FrozenPhonons / "
-                "AtomsEnsemble x PlaneWave / Probe+scan x Waves / annular / pixelated x ensemble_mean; eager with hook events, "
+                "AtomsEnsemble x PlaneWave / Probe+scan / PRISM S-matrix reduced at scan positions x Waves / annular / pixelated x ensemble_mean; eager with hook events, "
                 "lazy with several max_batch; non-trivial = more than one configuration")
     r = ctx.design_check("MultisliceImpl", cfg_text=CFG.format(n=3, k=3 if quick else 4), label="MultisliceImpl=>Multislice", workers=1,
                          timeout=3000)
@@ -142,8 +151,9 @@ def run(ctx: Ctx):
     cases.sort(key=lambda c: -c["ncfg"])
     items = []
     combos = [("frozen_phonons", "plane", "waves", False), ("frozen_phonons", "probe", "annular", False), ("frozen_phonons", "probe", "pixelated", True),
-              ("atoms_ensemble", "plane", "pixelated", False), ("atoms_ensemble", "probe", "annular", True), ("frozen_phonons", "plane", "pixelated", True)]
-    for j, c in enumerate(cases[: (24 if quick else 400)]):
+              ("atoms_ensemble", "plane", "pixelated", False), ("atoms_ensemble", "probe", "annular", True), ("frozen_phonons", "plane", "pixelated", True),
+              ("frozen_phonons", "prism", "waves", False), ("frozen_phonons", "prism", "pixelated", False), ("atoms_ensemble", "prism", "annular", True)]
+    for j, c in enumerate(cases[: (27 if quick else 400)]):
         kind, builder, det, mean = combos[j % len(combos)]
         t = run_case(c, kind, builder, det, mean, rng)
         meta = {"case": c, "kind": kind, "builder": builder, "detector": det, "mean": mean}
